@@ -140,7 +140,7 @@ REG["C11"] = {
 }
 
 REG["C06"] = {
-    "units": ["markdown", "mdparse"],
+    "units": ["markdown", "lineparser", "mdparse"],
     "scope": "PARTIAL — the tokenizer: (1) extract_code_block_start(line) equals the spec `cbs`: exactly ``` or a run of >= 3 backticks followed by an info string, split at the first `{` "
              "into (backticks, language, config); all str slices are proved to be taken at char boundaries (Rust's panic condition is the helper's precondition); "
              "(2) MarkdownIterator::next: a call consumes a prefix of the remaining lines, counts them, ends only at the end of input, and the token it returns accounts for exactly the "
@@ -219,6 +219,31 @@ REG["C08"] = {
                     "rules other than the default registry's"],
 }
 
+REG["C10"] = {
+    "units": ["markdown", "mdupdate"],
+    "thorough_extra": ["replay"],
+    "quick_extra": ["replay"],
+    "scope": "PARTIAL — MarkdownUpdateGenerator::generate_update(document, outcomes) over the tokenizer contract (unit markdown, co-owned): the result is upd_fold over a tokenization that covers the "
+             "WHOLE document (a document ending inside a front matter / fence is an error, nothing after any construct is truncated): every prose line, front matter and foreign code block is "
+             "written back as exactly the lines it stands for, in order (lemma_upd_nontest); a scrut block WITH a `$ ` command takes the next outcome, in order, and is written as fence + the "
+             "language as written + the inline configuration ` {…}` + its comment lines as they are + the generated body + closing fence; a scrut block WITHOUT a command takes no outcome and "
+             "keeps its own lines (lemma_upd_test: number and order of blocks, language, configuration, comments). `outcomes[testcase_index]` is in bounds when the caller passes one outcome "
+             "per test case (= per block with a command: lemma_md_doc of C06). has_command(code_lines) == 'some line starts with `$ `'. No outcomes: the document is returned as it is.",
+    "assumptions": [
+        "Outcome is opaque: what OutcomeTestGenerator::generate_testcase writes for an outcome (gen_text) is uninterpreted, so 'keeps the expectation lines of passing tests exactly as written' "
+        "is not decided here; max_backtick_size is uninterpreted (max_ticks); str::trim_start uninterpreted",
+        "lines are those of str::lines (uninterpreted; CR LF and a missing final line feed are therefore normalised: 'byte for byte' is decided at the level of lines, each written with one LF); "
+        "axiom_lines_no_lf: no line contains a line feed",
+        "String::push_str, StringNewline::assure_newline (read from src/newline.rs), \"`\".repeat(n), format!/formatln! helpers with ensures derived from the literal (R8')",
+        "precondition C10.pre.outcomes (one outcome per test case) is the caller's obligation (commands/update.rs zips test cases with outputs; read, not verified)",
+        "solver budget of generate_update raised to rlimit 40 (default 10)",
+    ],
+    "not_decided": ["idempotence and 'the updated document parses to the same commands' (need the tokenizer run on the OUTPUT text): BOUNDED stand-in only — verif-replay c10 N enumerates all documents "
+                    "of up to N constructs from 14 shapes plus up to min(N,4) lines from 13 shapes (quick N=3: 5 333 documents; thorough N=4; 610 134 documents for N=5 were run once), "
+                    "checks no panic / no error, idempotence, same commands, and the lines outside scrut blocks by an independent scan",
+                    "the body generated for a test (generators/outcome.rs)", "the Cram update generator", "CR LF documents"],
+}
+
 VX_NOTE = ("Trusted: Verus/Z3; the extractor's rewrite rules (DESIGN §4.2, each firing is logged in evidence.rewrites_fired); "
            "prelude.rs shims and assume_specifications (mechanically scanned into evidence.trusted_base); "
            "machine integers are NOT idealised (usize overflow is an obligation).")
@@ -263,6 +288,10 @@ LEVELS["C08"] = {"category": "proof", "technique": "Verus postconditions on extr
     "text": "Unbounded proof over all lines (without line feed) and all registries with plain-word names: how a line is split into expression / kind / quantifier, what the quantifier means, "
             "and that the canonical rendering reads back as the same parts. Partial: the regular expression itself is a trusted contract (cross-checked bounded), rule makers are opaque.",
     "design_ref": "DESIGN.md §5 C08", "note": VX_NOTE}
+LEVELS["C10"] = {"category": "proof", "technique": "Verus postconditions on extracted MarkdownUpdateGenerator::generate_update and has_command over the imported tokenizer contract; lemmas over upd_fold",
+    "text": "Unbounded proof over all documents (as sequences of lines) and all outcome lists: what update writes, token by token; lines outside scrut blocks kept in order, blocks keep language, "
+            "configuration and comments, nothing truncated, no index out of bounds. Partial: idempotence / re-parsing of the output only by a bounded enumeration labelled as such.",
+    "design_ref": "DESIGN.md §5 C10", "note": VX_NOTE}
 LEVELS["C13"] = {"category": "proof", "technique": "Verus postconditions on extracted newline::replace_crlf and TestCase::render_output",
     "text": "Unbounded proof over all byte strings of the two documented output transformations (CRLF -> LF unless keep_crlf; ANSI stripping only when asked). "
             "Partial: command transmission and byte-exact capture through bash/subprocess are out of reach and stated as not decided.",
@@ -274,7 +303,6 @@ LEVELS["C07"] = {"category": "proof", "technique": "Verus: LineParser methods an
 
 NOT_APPLICABLE = [
     {"property_id": "C09", "reason": "composition generate->parse->validate through format!-heavy rendering and the regex crate; contracts on the pieces in reach do not compose without a verified parser (DESIGN §10)"},
-    {"property_id": "C10", "reason": "same composition plus MarkdownIterator; no contract within reach expresses byte-for-byte preservation through the regex-based tokenizer (DESIGN §10)"},
     {"property_id": "C12", "reason": "a property of bash executing bash_runner.template; no Rust function's postcondition can state it (DESIGN §10)"},
     {"property_id": "C15", "reason": "decision is interleaved with process spawning/TempDir/Instant inside execute_all; a modular contract would need almost the whole body behind external_body stubs (DESIGN §10)"},
     {"property_id": "C17", "reason": "reader is serde_yaml (external), writer is format!; an inverse law needs the parser's semantics (DESIGN §10)"},
